@@ -144,6 +144,9 @@ func runClientOps(cf ccfg, ops []cop) []copResult {
 				pendingResp(c)
 				pendingResp = nil
 			}
+			if err == nil {
+				stirPools()
+			}
 			return n, err
 		}
 	}
@@ -279,3 +282,42 @@ func historyFor(ops []cop, rs []copResult) string {
 	}
 	return strings.Join(s, ";")
 }
+
+// stirPools is what the rest of the process may be doing while a call on this client sits in
+// Connection.Write or waits for its ack: other goroutines use the library, so every pooled
+// scratch object (chunk readers, pack buffers, compressors, send buffers) changes hands and is
+// overwritten.  Called by the fake connection inside Write, i.e. between the moment the message
+// is handed to the connection and the moment the ack is read.
+func stirPools() {
+	stirMu.Lock()
+	defer stirMu.Unlock()
+	if stirring {
+		return
+	}
+	stirring = true
+	defer func() { stirring = false }()
+	stirN++
+	other := &protocol.Message{Tag: "stir", Timestamp: int64(stirN), Record: map[string]interface{}{"k": "v"},
+		Options: &protocol.MessageOptions{Chunk: fmt.Sprintf("stirred-chunk-%d-%s", stirN, strings.Repeat("s", stirN%37))}}
+	b, _ := other.MarshalMsg(nil)
+	for i := 0; i < 3; i++ {
+		_, _ = protocol.GetChunk(b)
+		_, _ = protocol.RawMessage(b).Chunk()
+	}
+	el := protocol.EntryList{{Timestamp: protocol.EventTime{Time: time.Unix(int64(stirN), 0)}, Record: map[string]interface{}{"stir": int64(stirN)}}}
+	_, _ = el.MarshalPacked()
+	_, _ = protocol.NewCompressedPackedForwardMessage("stir", el)
+	if stirCl == nil {
+		f := &fakes.Factory{}
+		stirCl = client.New(client.ConnectionOptions{Factory: f})
+		_ = stirCl.Connect()
+	}
+	_ = stirCl.Send(other)
+}
+
+var (
+	stirMu   sync.Mutex
+	stirring bool
+	stirN    int
+	stirCl   *client.Client
+)
